@@ -433,6 +433,29 @@ mod tests {
     }
 
     #[test]
+    fn include_last_in_unclosed_block() {
+        // the include statement ends where its parent node ends; used to panic
+        let parse = ParseContext::parse(
+            "a".into(),
+            None,
+            Box::new(|path: &Path| match path.to_str().unwrap() {
+                "a" => Ok("feature test { include(b);".into()),
+                "b" => Ok("sub a by b;\n".into()),
+                _ => Err(SourceLoadError::new(path.to_owned(), "oh no")),
+            }),
+        )
+        .unwrap();
+        let (resolved, errs) = parse.generate_parse_tree();
+        assert!(errs.has_errors());
+        let text = resolved
+            .root
+            .iter_tokens()
+            .map(|t| t.as_str())
+            .collect::<String>();
+        assert_eq!(text, "feature test { sub a by b;\n");
+    }
+
+    #[test]
     fn assembly_basic() {
         let file_a = "\
         include(b);\n\
